@@ -356,6 +356,15 @@ def _register_shutdown(reg, prog):
         ev = Ev(ex, s, entry, env)
         return [('registries-closed', ev('self.outgoing_requests is None and self.incoming_requests is None'))]
 
+    # ---- construction: every manager owns its tables (C18 "other contexts in the same process are unaffected"; C02: a response is
+    # matched against the requests of THIS manager only).  A table that is not created per instance is shared by every context.
+    reg.classes['ContextI'].fields.update({'log': ANY, 'loop': Ref('Loop')})
+    reg.contract(TM + '.__init__', params={'context': Ref('ContextI')}, properties=['C18', 'C02'], only_raises=True, modifies=['*'],
+                 ensures={'own-empty-table-of-outgoing-requests': 'self.outgoing_requests is not None and is_new(self.outgoing_requests) and len(self.outgoing_requests) == 0',
+                          'own-empty-table-of-incoming-requests': 'self.incoming_requests is not None and is_new(self.incoming_requests) and len(self.incoming_requests) == 0',
+                          'tables-are-distinct': 'self.outgoing_requests is not self.incoming_requests',
+                          'token-counter-in-range': '0 <= self._token <= 65535', 'bound-to-its-context': 'self.context is context and self.loop is context.loop'})
+
     reg.externals['TokenInterfaceI.shutdown'] = lambda ex, st, args, kw, node: (st.log.append(('ti_shutdown', args[0])), [(st, VNone())])[1]
     reg.contract(TM + '.shutdown', properties=['C18'], requires=['tm_wf(self)'],
                  raises={'CancelledError': MAY, 'Exception': MAY}, modifies=['*'], at_exit=sd_exit,
